@@ -91,10 +91,13 @@ def cases(ctx):
         ranks = [2, 3, 5, 16]
         delays = {3: [ctx.seed]}
     else:
-        libs = [(b, n, None) for b in ("core_maths", "ext_maths", "osc_maths", "base10_maths", "base_e_maths") for n in (1, 2, 3, 4)]
-        libs += [("core_maths", 5, None), ("keep_duplicates", 1, None), ("keep_duplicates", 2, None), ("keep_duplicates", 3, None), ("keep_duplicates", 4, None)]
+        # (the full grid -- five shipped bases x n=1..4 x every P in 2..16 -- took more than an hour; this selection keeps every
+        #  basis, every complexity and small/prime/large rank counts, incl. more ranks than functions)
+        libs = [("core_maths", n, None) for n in (1, 2, 3, 4)] + [(b, n, None) for b in ("ext_maths", "osc_maths", "base10_maths") for n in (2, 3)]
+        libs += [("base_e_maths", 3, None), ("base_e_maths", 4, None), ("ext_maths", 4, None)]
+        libs += [("core_maths", 5, None), ("keep_duplicates", 1, None), ("keep_duplicates", 2, None), ("keep_duplicates", 3, None)]
         libs += [(nm, n, b) for nm, b in SUBBASES for n in (3, 4)]
-        ranks = list(range(2, 17))
+        ranks = [2, 3, 4, 5, 7, 11, 16]
         delays = {2: [ctx.seed, ctx.seed + 1], 3: [ctx.seed, ctx.seed + 1], 7: [ctx.seed]}
     # directed cases: (run name, n, basis, rank counts, complexities generated earlier in the same process)
     #  - a tiny basis: more ranks than labelled trees of a shape (ranks without work in shape_to_functions and later stages)
@@ -144,8 +147,8 @@ def correspondence(ctx):
             continue
         ctx.oracle_jobs.append((runname, n, 1, liboracle.load_library(ref["lib"], n)))
         todo = [(P, None) for P in ranks] + [(P, d) for P, ds in delays.items() for d in ds]
-        if ctx.quick and n >= 5:
-            todo = [(2, None), (3, None)]
+        if n >= 5:
+            todo = [(2, None), (3, None)] + ([] if ctx.quick else [(7, None)])
         if own_ranks is not None:
             todo = [(P, None) for P in own_ranks]
         for P, delay in todo:
